@@ -18,13 +18,13 @@ ASSUMPTIONS = [
     "trusted: nightly rustc's MIR, the MIR->SMT translation in /verif/mir_smt (validated against the native function on the repo's "
     "own pid-allocator test vectors at every run), z3 4.8.12 (cvc5 cross-check of the first query)",
 ]
-OUTSIDE = ["more than 3 threads / more than 2 calls per thread in one query", "weak memory"]
+OUTSIDE = ["allocate: more than 2 threads x 1 call in one query (longer histories only through the inductive step + injectivity window)", "make_reference: more than 3 threads / 2 calls per thread", "weak memory"]
 
 
 def bounds(tier):
-    return {"allocate": "2 threads x 1 call and 3 threads x 1 call (quick); + 2 threads x 2 calls (thorough); symbolic start state; "
-                        "schedule = symbolic thread-id sequence over all visible steps",
-            "make_reference": "2 threads x 1 call and 3 threads x 1 call, counter any u32 (wrap included); + 2x2 thorough",
+    return {"allocate": "2 threads x 1 call (both tiers); symbolic start state; schedule = symbolic thread-id sequence over all visible steps "
+                        "(3 threads and 2x2 calls do not finish within an hour: outside the claim)",
+            "make_reference": "2 threads x 1 call, counter any u32 (wrap included); thorough adds 3 threads x 1 call and 2 threads x 2 calls",
             "histories": "inductive step + injectivity on windows of 2^52 consecutive ranks (covers serial's 32-bit wrap)"}
 
 
@@ -90,7 +90,9 @@ def run_function(kind, crate, fn_regex, tier, out):
         return
     atom, locks = _field_layout(fn, text, kind)
     log("[C16] %s: %d visible nodes, atomics=%s locks=%s, MIR dump+symex %.1fs" % (kind, len(tree.nodes), atom, locks, time.time() - t0))
-    configs = [(2, 1)] + ([(3, 1), (2, 2)] if tier == "thorough" else [])
+    # allocate: 3 threads x 1 call needed 51 min of z3 and 2 x 2 calls did not finish in 1 h (z3 4.8.12, z3 5.1, cvc5; also with the
+    # start state confined to the wrap window), so they are in no tier; make_reference finishes both in ~6 min each
+    configs = [(2, 1)] + ([(3, 1), (2, 2)] if tier == "thorough" and kind != "allocate" else [])
     for (T, K) in configs:
         t1 = time.time()
         md = bmc.Model(tree, T, K, atom, locks)
